@@ -83,6 +83,12 @@ def run(ctx):
             ctx.nontrivial.add(json.dumps(b["inputs"]))
         relations(ctx, b["inputs"], b["rows"], b["stats"], {"inputs": b["inputs"]})
     tb = tb + cb
+    import matrix
+    for run in matrix.runs(ctx):
+        ctx.count("matrix", run["config"][:40])
+        if not run["error"]:
+            ctx.evaluations += 1
+            relations(ctx, run["given"], run["rows"], run["stats"], {"inputs": run["given"], "matrix": run["config"]})
     # merged statistics of multi-batch runs through the public API
     from synrbl import Balancer
     rng = random.Random("c18|%s|%s" % (ctx.seed, ctx.tier))
